@@ -53,6 +53,7 @@ def run(ctx: Ctx) -> None:
     python_frame_values(ctx, py)
     frames(ctx, py, rs)
     low_power(ctx, py, rs)
+    pending_not_lost(ctx, py, rs)
 
 
 # ---------------------------------------------------------------------------
@@ -587,3 +588,141 @@ def low_power(ctx: Ctx, py: PyProgram, rs: RustProgram) -> None:
             ctx.violation("C12.4/halt-wake-isr", key_of(EMU, "PCE500Emulator.step", "halted=False"), "HALT wake-up is not guarded by a pending status bit (ISR != 0)",
                           f"{EMU}:{gp.nodes[w].line}", guards=[py_guard_text(x) for x in gs])
     ctx.instance("C12.4/low-power", "executor unreachable while halted/off; wake-up guarded by status bits (Rust closure + outer loop, Python step)", n_sites, 8)
+
+
+# ---------------------------------------------------------------------------
+RS_PENDING_CLEARERS = {
+    # frozen from reading the Rust core: every store of `false` to the pending latch and why it cannot lose a request
+    "TimerContext::reset": "power-on/reset state",
+    "TimerContext::clear_pending_for_reset": "soft RESET instruction clears IMR/ISR together with the latch",
+    "TimerContext::apply_snapshot_info": "restore: cleared only when the restored ISR is empty",
+    "TimerContext::drain_pending_irq": "hand-over of the latch to the caller that delivers",
+    "CoreRuntime::install_imr_isr_hook": "firmware wrote ISR with no request bit left",
+    "CoreRuntime::step": "OFF / RESET / IR intrinsic bookkeeping inside the executed instruction",
+    "CoreRuntime::deliver_pending_irq": "delivery",
+}
+
+
+def pending_not_lost(ctx: Ctx, py: PyProgram, rs: RustProgram) -> None:
+    """A request that is pending but masked must survive until firmware unmasks it.  Two ownership rules decide the structural part:
+    the pending latch is cleared only by delivery, reset or restore; and host-side code never removes a status bit from ISR (only
+    firmware writes do) - the emulator's own ISR writes are OR-only."""
+    mod = py.module(EMU)
+    cls = next(n for n in mod.tree.body if isinstance(n, ast.ClassDef) and n.name == "PCE500Emulator")
+    methods = {m.name: m for m in cls.body if isinstance(m, ast.FunctionDef)}
+    callers: dict[str, set[str]] = {}
+    for name, m in methods.items():
+        for c in ast.walk(m):
+            if isinstance(c, ast.Call) and isinstance(c.func, ast.Attribute) and attr_chain(c.func.value) == "self" and c.func.attr in methods:
+                callers.setdefault(c.func.attr, set()).add(name)
+
+    def reset_only(name: str, seen: frozenset = frozenset()) -> bool:
+        if name in ("__init__", "reset"):
+            return True
+        cs = callers.get(name, set())
+        return bool(cs) and name not in seen and all(reset_only(c, seen | {name}) for c in cs)
+
+    n = 0
+    for name, m in methods.items():
+        for blk in _blocks(m):
+            for st in blk:
+                if isinstance(st, ast.Assign) and any(attr_chain(t) == "self._irq_pending" for t in st.targets):
+                    v = st.value
+                    if isinstance(v, ast.Constant) and v.value is True:
+                        continue
+                    n += 1
+                    if not isinstance(v, ast.Constant):
+                        if name == "load_snapshot":
+                            continue
+                        ctx.violation("C12.2/pending-clear-sites", key_of(EMU, name, "computed pending"), f"{name} overwrites the pending latch with `{unparse(v)}` outside snapshot restore", f"{EMU}:{st.lineno}")
+                        continue
+                    delivery = any(isinstance(o, ast.Assign) and any(attr_chain(t) == "self._in_interrupt" for t in o.targets) and isinstance(o.value, ast.Constant) and o.value.value is True for o in blk)
+                    if delivery or reset_only(name):
+                        continue
+                    ctx.violation("C12.2/pending-clear-sites", key_of(EMU, name, "pending latch cleared"),
+                                  f"PCE500Emulator.{name} clears the pending latch (self._irq_pending = False) although it neither delivers the interrupt nor resets the machine: a request that is pending but masked at that moment is dropped and is not taken when firmware unmasks it", f"{EMU}:{st.lineno}")
+    ctx.instance("C12.2/pending-clear-sites", "stores of a non-True value to PCE500Emulator._irq_pending: delivery / reset / restore only", n, 3)
+
+    # host-side ISR writes are OR-only
+    n = 0
+    for name, m in methods.items():
+        d = py_defs(m)
+        for c in ast.walk(m):
+            if py_is_call(c, "write_byte") or py_is_call(c, "write_bytes"):
+                if not (isinstance(c.func, ast.Attribute) and attr_chain(c.func.value) == "self.memory"):
+                    continue
+                args = list(c.args)
+                addr = args[0] if c.func.attr == "write_byte" else (args[1] if len(args) > 1 else None)
+                val = args[1] if c.func.attr == "write_byte" else (args[2] if len(args) > 2 else None)
+                if addr is None or val is None or "ISR" not in _imem_tag(py_leaves(addr, d) | {unparse(addr)}):
+                    continue
+                n += 1
+                params = {a.arg for a in m.args.args + m.args.kwonlyargs}
+                vl = {x.id for x in ast.walk(val) if isinstance(x, ast.Name)}
+                if vl and vl <= params:
+                    continue   # the caller supplies the whole register value (machine set-up API), nothing is read-modified
+                if reset_only(name):
+                    continue
+                if not _or_only(val, d, m):
+                    ctx.violation("C12.2/isr-host-writes", key_of(EMU, name, "ISR written with a non-OR value"),
+                                  f"PCE500Emulator.{name} writes ISR with `{unparse(val)}`, which is not old|bits: host-side code can remove a latched status bit, losing a request that is pending but masked (only firmware acknowledges requests)", f"{EMU}:{c.lineno}")
+    ctx.instance("C12.2/isr-host-writes", "host-side writes to the ISR cell in PCE500Emulator are read-modify-write OR", n, 1)
+
+    # Rust: who clears TimerContext.irq_pending
+    n = 0
+    seen_fns = set()
+    for sfile in (isa.LIB_RS, "core/src/timer.rs"):
+        rel = rs.file_for(sfile)
+        for fn in [f for (r, _q), f in rs.fns.items() if r == rel]:   # test modules are not indexed
+            for a in walk(fn.body):
+                if a.get("k") == "assign" and expr_text(a["l"]).replace(" ", "").endswith("irq_pending") and expr_text(a["r"]).strip() == "false":
+                    n += 1
+                    seen_fns.add(fn.qual)
+                    if fn.qual not in RS_PENDING_CLEARERS:
+                        ctx.violation("C12.2/pending-clear-sites", key_of(fn.file, fn.qual, "pending latch cleared"),
+                                      f"{fn.qual} clears TimerContext.irq_pending; the functions confirmed to do so without losing a request are {sorted(RS_PENDING_CLEARERS)}", fn.where)
+    ctx.instance("C12.2/rust-pending-clear-sites", "stores of false to irq_pending in the Rust core, each in a confirmed delivery/reset/restore/ack function", n, 6)
+
+
+def _blocks(fn: ast.AST):
+    for node in ast.walk(fn):
+        for f in ("body", "orelse", "finalbody"):
+            b = getattr(node, f, None)
+            if isinstance(b, list) and b and isinstance(b[0], ast.stmt):
+                yield b
+        if isinstance(node, ast.Try):
+            for h in node.handlers:
+                yield h.body
+
+
+def _or_only(val: ast.expr, d: dict, fn: ast.AST, depth: int = 0) -> bool:
+    """val == (old | x) [& 0xFF] where old is a read of the same cell (through locals)."""
+    if depth > 6:
+        return False
+    if isinstance(val, ast.BinOp) and isinstance(val.op, ast.BitAnd):
+        for a, b in ((val.left, val.right), (val.right, val.left)):
+            if isinstance(b, ast.Constant) and b.value == 0xFF:
+                return _or_only(a, d, fn, depth + 1)
+        return False
+    if isinstance(val, ast.BinOp) and isinstance(val.op, ast.BitOr):
+        return _reads_isr(val.left, d, depth) or _reads_isr(val.right, d, depth)
+    if isinstance(val, ast.Name):
+        defs = d.get(val.id, [])
+        return bool(defs) and all(_or_only(x, d, fn, depth + 1) for x in defs)
+    return False
+
+
+def _reads_isr(e: ast.expr, d: dict, depth: int = 0) -> bool:
+    if depth > 6:
+        return False
+    if isinstance(e, ast.BinOp) and isinstance(e.op, ast.BitAnd):
+        for a, b in ((e.left, e.right), (e.right, e.left)):
+            if isinstance(b, ast.Constant) and b.value == 0xFF:
+                return _reads_isr(a, d, depth + 1)
+        return False
+    if isinstance(e, ast.Name):
+        defs = d.get(e.id, [])
+        return bool(defs) and all(_reads_isr(x, d, depth + 1) for x in defs)
+    if isinstance(e, ast.Call) and isinstance(e.func, ast.Attribute) and e.func.attr == "read_byte" and e.args:
+        return "ISR" in _imem_tag(py_leaves(e.args[0], d) | {unparse(e.args[0])})
+    return False
